@@ -48,7 +48,8 @@ def validate_out(chk, traces):
         return
     clean = []
     for n, t in enumerate(traces):
-        clean.append(dict(id=n + 1, recs=t["recs"], pkts=t["pkts"]))
+        per = {d: [dict(n=r["n"], cars=r["cars"]) for r in t["recs"] if r["d"] == d] for d in "cs"}
+        clean.append(dict(id=n + 1, recs=per, pkts=t["pkts"]))
     acc, prog, r = batch("TraceTcpOut", clean)
     chk.tlc("TraceTcpOut batch", r)
     chk.traces_validated += len(clean)
